@@ -1,6 +1,7 @@
 import Receptor.Proofs.Wire
 import Receptor.Proofs.Framer
 import Receptor.Proofs.Forward
+import Receptor.Proofs.ForwardSched
 import Receptor.Generated.Facts
 /-!
 # C02 — datagrams arrive intact, only at the addressed service, with the true source
@@ -220,6 +221,61 @@ theorem stream_link_roundtrip (h : Bytes → Nat) (tbl : Nat → Option Bytes) (
   intro m hmem
   obtain ⟨a, b, c, d, e⟩ := hwf m hmem
   exact decode_encode h tbl m hh a b c d e
+
+
+/-! ## Concurrent senders: any number of datagrams in flight, any schedule of their steps -/
+
+/-- **concurrent_sends_independent.** For every network, every burst of sends (any senders, any addressees, any number)
+and every schedule of single steps — any interleaving of the `handleMessageData` calls of the datagrams in flight —
+once nothing is in flight any more, the datagrams that ended are exactly those of the sends followed one at a time:
+send `k` ended once, at the node and with the outcome `Forward.route` gives it alone.  No schedule loses a datagram,
+delivers one twice, or moves one to another listener. -/
+theorem concurrent_sends_independent (net : Net) (sends : List (Node × Packet)) (sched : List Nat)
+    (hq : ((launch sends).run stdHops net sched).flights = []) :
+    ((launch sends).run stdHops net sched).ended.Perm (aloneFrom net 0 sends) := by
+  have h := run_fates stdHops net sched (launch sends)
+  unfold Sky.fates at h
+  rw [hq] at h
+  simpa [launch, launch_fates] using h
+
+/-- …and at every moment of every schedule (whether or not anything is still in flight): whatever has ended is part of
+that list — nothing is delivered that the send followed alone would not deliver, and nothing twice. -/
+theorem concurrent_sends_safe_at_every_moment (net : Net) (sends : List (Node × Packet)) (sched : List Nat) :
+    ∃ later : List Ended, (((launch sends).run stdHops net sched).ended ++ later).Perm (aloneFrom net 0 sends) := by
+  have h := run_fates stdHops net sched (launch sends)
+  unfold Sky.fates at h
+  have h2 : (launch sends).ended ++ (launch sends).flights.map (Flight.fate stdHops net) = aloneFrom net 0 sends := by
+    simp [launch, launch_fates]
+  rw [h2] at h
+  exact ⟨_, h⟩
+
+/-- each send ends exactly once: the identities of the ended datagrams are `0 … n-1`, each once -/
+theorem each_send_ends_once (net : Net) (sends : List (Node × Packet)) (sched : List Nat)
+    (hq : ((launch sends).run stdHops net sched).flights = []) :
+    (((launch sends).run stdHops net sched).ended.map Prod.fst).Perm (List.range sends.length) := by
+  have h := (concurrent_sends_independent net sends sched hq).map Prod.fst
+  rw [aloneFrom_ids] at h
+  simpa [List.range_eq_range'] using h
+
+/-- the premise "nothing is in flight any more" is met by a schedule for every burst: the steps a datagram may take are
+bounded by its budget, so picking the first datagram in flight often enough empties the network -/
+theorem some_schedule_drains (net : Net) (sends : List (Node × Packet)) :
+    ∃ sched, ((launch sends).run stdHops net sched).flights = [] :=
+  ⟨_, drains stdHops net _ (launch sends) (Nat.le_refl _)⟩
+
+/-- a line 1 — 2 — 3 with a listener for service `[9]` on node 3 and on node 1 -/
+def lineNet : Net := fun v =>
+  { route := fun t => if t = v then none else if v = [2] then some t else some [2],
+    conn := fun _ => true, listener := fun s => s = [9] && v != [2],
+    fw := fun _ _ _ _ => .accept, maxHops := 30 }
+
+def pk (a b : Node) (pay : Nat) : Packet := { fromNode := a, toNode := b, fromSvc := [7], toSvc := [9], ttl := 30, body := .raw [pay] }
+
+/-- Non-vacuity: two datagrams crossing each other on the line, steps interleaved 1,1,0,1,0,0 — both delivered, each at
+its addressee; the first to end is the second send. -/
+example : ((launch [([1], pk [1] [3] 5), ([3], pk [3] [1] 6)]).run stdHops lineNet [1, 1, 0, 1, 0, 0]).flights.length = 0
+    ∧ ((launch [([1], pk [1] [3] 5), ([3], pk [3] [1] 6)]).run stdHops lineNet [1, 1, 0, 1, 0, 0]).ended
+        = [(1, ([1], .delivered)), (0, ([3], .delivered))] := by decide
 
 
 /-- the source's choice (regenerated fact) -/
